@@ -115,6 +115,12 @@ def norm_cont_rule(repo, R):
 
 
 def run(repo, R):
+    R.rule("INPUTS", "the public wrapper uses its parameters as given: no path replaces one by a filtered/re-ordered/scaled/defaulted copy")
+    from ..flow import check_wrapper_inputs
+    for _w in ['gbasis.integrals.overlap.overlap_integral', 'gbasis.integrals.overlap_asymm.overlap_integral_asymmetric']:
+        _wf = repo.func(_w)
+        R.note_function(_wf.qualname)
+        check_wrapper_inputs(repo, _wf, R)
     R.rule("S0", "start of the recursion = sqrt(pi/p) exp(-mu (A-B)^2)")
     R.rule("Sa", "Obara-Saika step on the first index: M[i] = (P-A) M[i-1] + (i-1)/(2p) M[i-2]")
     R.rule("Sb", "Obara-Saika step on the second index with the coupling i/(2p) M[i-1, j-1]")
